@@ -36,7 +36,8 @@ var reFrame = regexp.MustCompile(`(?m)^(\S+)\(`)
 func blockedInListeners(dump string) []string {
 	set := map[string]bool{}
 	for _, g := range strings.Split(dump, "\n\n") {
-		if !strings.Contains(g, "sync.(*Mutex).Lock") && !strings.Contains(g, "sync.(*RWMutex)") {
+		// parked on a mutex, or a call issued by this check (listen/close) that has not returned
+		if !strings.Contains(g, "sync.(*Mutex).Lock") && !strings.Contains(g, "sync.(*RWMutex)") && !strings.Contains(g, "verifharness/props.c13") {
 			continue
 		}
 		if !strings.Contains(g, "outline-ss-server/service.") {
@@ -262,7 +263,83 @@ func c13Run(c *vk.Ctx) {
 		}
 	}
 	c13Forced(c)
+	c13ManyAddresses(c)
 }
+
+// c13ManyAddresses: a configuration with many ports goes away: 33..110 (address, kind) pairs are
+// acquired, then all their handles are closed with no listen call in between (sequentially or
+// from several goroutines); every Close returns and the manager stays usable.
+func c13ManyAddresses(c *vk.Ctx) {
+	r := c.Rng
+	for rep := 0; rep < c.N(3, 12); rep++ {
+		m := service.NewListenerManager()
+		pairs := 33 + r.Intn(78)
+		var closers []func() error
+		for i := 0; len(closers) < pairs; i++ {
+			addr := fmt.Sprintf("127.0.0.1:%d", 19000+i)
+			if ln, err := m.ListenStream(addr); err == nil {
+				closers = append(closers, ln.Close)
+			}
+			if pc, err := m.ListenPacket(addr); err == nil {
+				closers = append(closers, pc.Close)
+			}
+			if i > 400 {
+				break
+			}
+		}
+		concurrent := rep%2 == 1
+		var closedN atomic.Int64
+		done := make(chan struct{})
+		go func() {
+			defer close(done)
+			if concurrent {
+				var wg sync.WaitGroup
+				for _, cl := range closers {
+					wg.Add(1)
+					go func(cl func() error) { defer wg.Done(); c13CloseCall(cl); closedN.Add(1) }(cl)
+				}
+				wg.Wait()
+			} else {
+				for _, cl := range closers {
+					c13CloseCall(cl)
+					closedN.Add(1)
+				}
+			}
+		}()
+		select {
+		case <-done:
+		case <-time.After(20 * time.Second):
+			dump := goroutineDump()
+			c.Violation("C13/deadlock:"+strings.Join(blockedInListeners(dump), "+"), map[string]any{"phase": "closing every handle of a manager with many addresses, no listen in between", "handles": len(closers), "closes_returned": closedN.Load(), "concurrent": concurrent, "dump_head": dump[:min(len(dump), 5000)]})
+			return
+		}
+		res := make(chan error, 1)
+		go func() {
+			ln, err := m.ListenStream("127.0.0.1:19000")
+			if err == nil {
+				ln.Close()
+			}
+			res <- err
+		}()
+		select {
+		case err := <-res:
+			if err != nil {
+				c.Violation("C13/manager-unusable-after-round", map[string]any{"phase": "many addresses", "error": err.Error()})
+				return
+			}
+		case <-time.After(20 * time.Second):
+			dump := goroutineDump()
+			c.Violation("C13/deadlock:"+strings.Join(blockedInListeners(dump), "+"), map[string]any{"phase": "listen after closing many addresses", "dump_head": dump[:min(len(dump), 5000)]})
+			return
+		}
+		c.Count("many_address_teardowns", 1)
+		c.Max("max_handles_closed_without_a_listen_between", int64(len(closers)))
+		c.Eval(fmt.Sprintf("many-addresses|handles=%s|concurrent=%v", sizeBucket(len(closers)), concurrent))
+	}
+}
+
+// c13CloseCall is a named frame so that a Close that never returns shows up in the dump.
+func c13CloseCall(cl func() error) { cl() }
 
 // c13Forced: hook H3 holds the closer of the last handle right before it calls back into the
 // manager; meanwhile listens on the same and on other addresses must complete.
@@ -389,6 +466,7 @@ func init() {
 			c.Require("ops_completed")
 			c.Require("forced_lastclose_vs_listen")
 			c.Require("bind_failures_returned")
+			c.Require("many_address_teardowns")
 			c13Run(c)
 		},
 	})
